@@ -68,6 +68,11 @@ fn inner_models(tier: Tier) -> Vec<(Vec<VarDecl>, Con)> {
                     VarDecl::from_values(c3),
                 ];
                 for c in gen::instances(&vars3, 0) {
+                    // (the instances with a non-default propagation method are generated below
+                    // from the default one)
+                    if matches!(&c, Con::Cumulative { opts, .. } if *opts != CumOpts::default_opts()) {
+                        continue;
+                    }
                     if c.vars().len() == 3 {
                         if let Con::Cumulative { starts, durations, usages, cap, opts } = &c {
                             // every propagation method (and, in the thorough tier, every option)
